@@ -30,8 +30,29 @@ EXPLANATION = (
 )
 
 
+def _push_roll(x, k):
+    """roll(x, k) with the shift pushed through element-wise structure: roll(f(a, b), k) == f(roll(a, k), roll(b, k))"""
+    if x.is_number:
+        return x
+    if isinstance(x, sp.Symbol):
+        return op("roll", x, k) if k != 0 else x
+    f = fname(x)
+    if f == "roll" and x.args[1].is_Integer and k.is_Integer:
+        return _push_roll(x.args[0], sp.Integer(x.args[1] + k))
+    if isinstance(x, (sp.Add, sp.Mul, sp.Pow)) or f in ("pymod",) or isinstance(x, (sp.cos, sp.sin, sp.exp, sp.Abs)):
+        return x.func(*[_push_roll(a, k) for a in x.args])
+    return op("roll", x, k) if k != 0 else x
+
+
 def norm_inc(t):
-    """diff with a cyclic closure is a roll; constants inside `% (2 pi)` are reduced modulo the period"""
+    """diff with a cyclic closure is a roll; a roll of an element-wise expression is that expression of rolled operands;
+    constants inside `% (2 pi)` are reduced modulo the period"""
+    def fn0(n):
+        if fname(n) == "roll" and len(n.args) == 2 and n.args[1].is_Integer and not isinstance(n.args[0], sp.Symbol):
+            return _push_roll(n.args[0], n.args[1])
+        return None
+    t = T.rewrite(T.to_term(t), fn0)
+
     def fn(n):
         f = fname(n)
         if f == "diff" and len(n.args) == 3:
@@ -96,50 +117,83 @@ def run(ctx):
     # ---- R06.1 twiddle tables and moment order
     th = P("theta")
     table = [sp.cos(th), sp.sin(th), sp.cos(2 * th), sp.sin(2 * th)]
-    for q in (M2 + "mem2_scipy_root_finder", M2 + "mem2_newton"):
-        f = p.get_function(q)
-        it = Interp(p)
-        rowst = {}
-        for n in own_walk(f.node):
-            if isinstance(n, ast.Assign) and isinstance(n.targets[0], ast.Subscript) and isinstance(n.targets[0].value, ast.Name):
-                ix = n.targets[0].slice
-                first_ = ix.elts[0] if isinstance(ix, ast.Tuple) else ix
-                if isinstance(first_, ast.Constant) and isinstance(first_.value, int):
-                    rowst.setdefault(n.targets[0].value.id, []).append(n)
-        tables = [v for v in rowst.values() if len(v) == 4]
-        stores = tables[0] if len(tables) == 1 else []
-        got = {}
-        from ..interp import Env
-        env = Env(it, f, f.module)
-        env.vars["directions_radians"] = th
-        for s_ in stores:
-            idx = s_.targets[0].slice
-            first = idx.elts[0] if isinstance(idx, ast.Tuple) else idx
-            if isinstance(first, ast.Constant):
-                got[first.value] = T.to_term(it.eval(s_.value, env))
-        ok = all(j in got and got[j] == table[j] for j in range(4)) and len(got) == 4
-        ctx.expect(ok, "R06.1", f"{f.name}[twiddle table]", "rows are [cos t, sin t, cos 2t, sin 2t]", f.loc(),
-                   derived=str({k: T.show(v, 30) for k, v in sorted(got.items())}))
-    # moment vector order
-    for q, fn_name in ((M2 + "mem2_scipy_root_finder", "np.array"), (M2 + "_mem2_newton_point", "np.array")):
-        f = p.get_function(q)
-        arrs = [n for n in own_walk(f.node) if isinstance(n, ast.Assign) and isinstance(n.targets[0], ast.Name)
-                and isinstance(n.value, ast.Call) and ast.unparse(n.value.func) == "np.array" and n.value.args
-                and isinstance(n.value.args[0], ast.List) and len(n.value.args[0].elts) == 4
-                and all(isinstance(e, ast.Subscript) for e in n.value.args[0].elts)]
+    # what the two drivers hand to their per-frequency solvers, captured at the call (wherever the tables are built: inline
+    # or in a helper): the twiddle table, the moment vector and the direction increments
+    A1_, B1_, A2_, B2_ = (P(n) for n in ("a1", "b1", "a2", "b2"))
+    W_ = lambda x: op("pymod", x + sp.pi, 2 * sp.pi) - sp.pi  # noqa: E731
+    inc_ref = (W_(th - op("roll", th, sp.Integer(1))) + W_(op("roll", th, sp.Integer(-1)) - th)) / 2
+    captured = {}
+
+    def twiddle_rows(t):
+        rows = {}
+        cur = T.to_term(t)
+        while fname(cur) == "store":
+            i = cur.args[1]
+            if isinstance(i, sp.Tuple) and len(i.args) == 2 and i.args[0].is_Integer:
+                rows.setdefault(int(i.args[0]), cur.args[2])
+            cur = cur.args[0]
+        return rows
+
+    # (a) Newton driver -> _mem2_newton_point(..., direction_increment, twiddle_factors, ...)
+    fnp = p.get_function(M2 + "_mem2_newton_point")
+    itn = Interp(p, opaque={M2 + "initial_value": "guess0"})
+
+    def hook_point(_it, f_, a_, k_, e_, n_):
+        bound = dict(zip(f_.params, a_))
+        bound.update(k_)
+        captured.setdefault("newton", bound)
+        return None
+    itn.hooks[fnp.qualname] = hook_point
+    fdrv = p.get_function(M2 + "mem2_newton")
+    itn.call_function(fdrv, [th, A1_, B1_, A2_, B2_, P("progress"), None, False], {}, None)
+    # (b) scipy driver -> scipy.optimize.root(moment_constraints, guess, args=(twiddle, moments, increments))
+    fsc = p.get_function(M2 + "mem2_scipy_root_finder")
+    itsc = Interp(p, opaque={M2 + "initial_value": "guess0"})
+    rsc = T.to_term(itsc.call_function(fsc, [th, A1_, B1_, A2_, B2_, P("progress")], {}, None))
+    roots = T.find_ops(rsc, "ext_scipy_optimize_root")
+    if roots:
+        for a_ in roots[0].args:
+            if isinstance(a_, sp.Tuple) and len(a_.args) == 2 and a_.args[0] == Str("args") and isinstance(a_.args[1], sp.Tuple) \
+                    and len(a_.args[1].args) == 3:
+                captured["scipy"] = {"twiddle_factors": a_.args[1].args[0], "moments": a_.args[1].args[1],
+                                     "direction_increment": a_.args[1].args[2]}
+    # (c) per-point Newton -> mem2_newton_solver(moments, ...)
+    fsolv = p.get_function(M2 + "mem2_newton_solver")
+    itp = Interp(p)
+
+    def hook_solver(_it, f_, a_, k_, e_, n_):
+        bound = dict(zip(f_.params, a_))
+        bound.update(k_)
+        captured.setdefault("solver", bound)
+        return P("solver_result")
+    itp.hooks[fsolv.qualname] = hook_solver
+    itp.call_function(fnp, [P("out"), A1_, B1_, A2_, B2_, P("guess"), P("dth"), P("tw"), None, False], {}, None)
+
+    for key, fdr in (("scipy", fsc), ("newton", fdrv)):
+        cap = captured.get(key)
+        if cap is None or "twiddle_factors" not in cap:
+            ctx.unsure("R06.1", f"{fdr.name}[twiddle table]", "call of the per-frequency solver not captured", fdr.loc())
+            continue
+        rows = twiddle_rows(cap["twiddle_factors"])
+        ok = set(rows) == {0, 1, 2, 3} and all(rows[j] == table[j] for j in range(4))
+        ctx.expect(ok, "R06.1", f"{fdr.name}[twiddle table]", "rows handed to the solver are [cos t, sin t, cos 2t, sin 2t]", fdr.loc(),
+                   derived=str({k: T.show(v, 30) for k, v in sorted(rows.items())}))
+        ctx.equiv("R06.4", f"{fdr.name}[direction increments]", cap.get("direction_increment"), inc_ref, fdr.loc(),
+                  "the increments handed to the solver are the midpoint rule on the circle (sibling of get_direction_increment)",
+                  norm=norm_inc, interp=itn if key == "newton" else itsc)
+    for key, fdr in (("scipy", fsc), ("solver", fnp)):
+        cap = captured.get(key)
+        mv = T.to_term(cap.get("moments")) if cap and cap.get("moments") is not None else None
         ok = False
-        if len(arrs) == 1 and arrs[0].value.args and isinstance(arrs[0].value.args[0], ast.List):
-            names = []
-            for e in arrs[0].value.args[0].elts:
-                b = e
-                while isinstance(b, ast.Subscript):
-                    b = b.value
-                names.append(b.id if isinstance(b, ast.Name) else "?")
-            ok = names == ["a1", "b1", "a2", "b2"]
-            # all four indexed identically
-            idxs = {ast.unparse(e.slice) for e in arrs[0].value.args[0].elts if isinstance(e, ast.Subscript)}
-            ok = ok and len(idxs) == 1
-        ctx.expect(ok, "R06.1", f"{f.name}[moment vector]", "moments == [a1, b1, a2, b2] at one and the same index", f.loc())
+        if mv is not None and fname(mv) == "array" and len(mv.args) == 4:
+            bases = [a.args[0] if fname(a) == "item" else None for a in mv.args]
+            idxs = {a.args[1] for a in mv.args if fname(a) == "item"}
+            ok = bases == [A1_, B1_, A2_, B2_] and len(idxs) == 1
+        ctx.expect(ok, "R06.1", f"{fdr.name}[moment vector]", "moments == [a1, b1, a2, b2] at one and the same index", fdr.loc(),
+                   derived=T.show(mv, 160) if mv is not None else "not captured")
+    ctx.absorb(itn)
+    ctx.absorb(itsc)
+    ctx.absorb(itp)
     fs = p.get_function(M2 + "mem2_newton_solver")
     its = Interp(p, opaque={M2 + "moment_constraints": "constraints", M2 + "mem2_jacobian": "jacobian",
                             M2 + "mem2_directional_distribution": "dist", M2 + "solve_newton_update": "solve", EST + "mem.numba_mem": "mem"})
@@ -270,28 +324,6 @@ def run(ctx):
     r = it4.call_function(fu, [th], {}, None)
     ctx.equiv("R06.4", "get_direction_increment", r, ref, fu.loc(), "midpoint rule on the circle: (wrap(backward) + wrap(forward))/2",
               norm=norm_inc, interp=it4)
-    fn_ = p.get_function(M2 + "mem2_newton")
-    la = local_assignments(fn_.node)
-    from ..interp import Env
-    env = Env(it4, fn_, fn_.module)
-    env.vars["directions_radians"] = th
-    # the increments are whatever local is assigned from an expression of two wrapped one-sided differences of the directions;
-    # it is found as the local whose (fully substituted) definition mentions np.roll / np.diff of the direction parameter
-    from .fc import substitute_defs as _subst
-    inc_val = None
-    for name, defs in la.items():
-        d = [x for x in defs if x[0] == "assign"]
-        if len(d) != 1:
-            continue
-        full = _subst(fn_.node, d[0][1], set())
-        txt = ast.unparse(full)
-        if txt.count("directions_radians") >= 3 and ("np.roll" in txt or "np.diff" in txt) and "/ 2" in txt.replace("2.0", "2"):
-            inc_val = it4.eval(full, env)
-    if inc_val is not None:
-        ctx.equiv("R06.4", "mem2_newton[inline increments]", inc_val, ref, fn_.loc(),
-                  "the inline computation is the same midpoint rule (sibling of get_direction_increment)", norm=norm_inc, interp=it4)
-    else:
-        ctx.unsure("R06.4", "mem2_newton[inline increments]", "inline increment computation not found", fn_.loc())
     ctx.absorb(it4)
 
     # ---- R06.5 covariance of the closed forms (polynomial identities)
@@ -398,5 +430,5 @@ def run(ctx):
     ctx.require_count("R06.1", 8)
     ctx.require_count("R06.2", 20)
     ctx.require_count("R06.3", 4)
-    ctx.require_count("R06.4", 2)
+    ctx.require_count("R06.4", 3)
     ctx.require_count("R06.5", 3)
